@@ -208,6 +208,12 @@ func runC15(t *testing.T, seed uint64, tier string) (*Scenario, *Result) {
 			// an attempt
 			var k *c15tok
 			switch {
+			case lastAdmitted != nil && lastAdmitted.exp.Sub(now) < 20*time.Second && lastAdmitted.exp.After(now) && r.Bool(0.5):
+				// present a token that was admitted a moment ago again, just after it has expired
+				k = lastAdmitted
+				sim.RunFor(lastAdmitted.exp.Sub(now) + 3*time.Second)
+				now = time.Now()
+				sim.Stats["probe.token_represented_after_expiry"]++
 			case len(pool) > 0 && r.Bool(0.45):
 				k = pool[r.Intn(len(pool))]
 			default:
